@@ -89,7 +89,8 @@ class RepoClass:
                                 and isinstance(n.target.value, ast.Name) and n.target.value.id == selfname:
                             f.add(n.target.attr)
                 elif isinstance(s, ast.AnnAssign) and isinstance(s.target, ast.Name) and s.value is None:
-                    f.add(s.target.id)       # annotated instance attribute (State / NamedTuple)
+                    if "ClassVar" not in ast.unparse(s.annotation):
+                        f.add(s.target.id)       # annotated instance attribute (State / NamedTuple)
             for b in self.bases:
                 f |= b.fields()
             self._fields = f
